@@ -524,6 +524,75 @@ def gen_fit_inputs(rng, n, max_N=(6, 4, 3), combos=None):
                "hooks": hooks}
 
 
+# ------------------------------------------------------------------ C08 full vs compact out of the solvers (larger cells)
+def check_solver_full_compact(inp) -> list:
+    """C08 on what the SOLVERS return (not the harness's own expansion): for 5..12-atom supercells with several
+    lattice points the full output must be invariant under every lattice translation, the compact output must be
+    full[p2s_map], and translating the compact blocks must reproduce the full tensor."""
+    cr = _cr(inp)
+    N = len(cr.numbers)
+    orders = _orders(inp)
+    sizes = _basis_sizes(cr, orders, None)
+    if any(v == 0 for v in sizes.values()):
+        return []
+    d, f = _dataset(inp, N)
+    out = []
+    A, sobj = _fit(cr, orders, d, f, compact=False)
+    Cc, cobj = _fit(cr, orders, d, f, compact=True)
+    p2s = np.asarray(cobj.p2s_map)
+    tp = np.asarray(cobj.basis_set[orders[0]].translation_permutations)
+    for o in orders:
+        T, Tc = A[o], Cc[o]
+        scale = max(float(np.abs(T).max()), 1e-300)
+        if T.shape[:o] != (N,) * o:
+            out.append(f"order {o}: full shape {T.shape}")
+            continue
+        if Tc.shape != (len(p2s),) + T.shape[1:]:
+            out.append(f"order {o}: compact shape {Tc.shape}")
+            continue
+        e = float(np.abs(Tc - T[p2s]).max()) / scale
+        if e > 1e-10:
+            out.append(f"order {o}: compact result differs from full[p2s_map] (rel. dev {e:.3e})")
+        for row in tp:
+            e = float(np.abs(T[np.ix_(*([row] * o))] - T).max()) / scale
+            if e > 1e-10:
+                out.append(f"order {o}: full tensor returned by the solver is not invariant under a lattice translation "
+                           f"(rel. dev {e:.3e})")
+                break
+        # the full tensor recovered from the compact one by lattice translations
+        R = np.zeros_like(T)
+        for row in tp:
+            inv = np.argsort(row)
+            # R[row[p], row[j], ...] = Tc[p-th independent atom, j, ...]
+            blk = Tc[np.ix_(np.arange(len(p2s)), *([inv] * (o - 1)))]
+            R[row[p2s]] = blk
+        e = float(np.abs(R - T).max()) / scale
+        if e > 1e-10:
+            out.append(f"order {o}: translating the compact blocks does not reproduce the full tensor (rel. dev {e:.3e})")
+    return out
+
+
+def gen_solver_full_compact_inputs(rng, n):
+    combos = [(3,), (2, 3), (2,), (3, 4), (2, 3, 4), (4,)]
+    protos = ["sc", "bcc_prim", "fcc_prim", "hex1", "cscl"]
+    for k in range(n):
+        orders = combos[k % len(combos)] if k % len(combos) < 3 or rng.random() < 0.5 else rng.choice(combos[:3])
+        mx = 12 if max(orders) <= 3 else 4
+        cr = None
+        for _ in range(300):
+            c = crystal(rng, max_N=mx, min_N=min(5, mx), protos=protos, allow_random=False, min_nlp=2)
+            sizes = _basis_sizes(c, orders, None)
+            if all(v > 0 for v in sizes.values()) and sum(sizes.values()) < 250:
+                cr = c
+                break
+        if cr is None:
+            continue
+        N = len(cr.numbers)
+        nb = sum(sizes.values())
+        yield {"crystal": cr, "orders": list(orders), "n_snap": int(np.ceil(2.0 * nb / (3 * N))) + 4,
+               "data_seed": rng.randrange(10 ** 6), "amp": 0.05}
+
+
 # ------------------------------------------------------------------ C07 cutoff
 def check_cutoff(inp) -> list:
     cr = _cr(inp)
@@ -1805,6 +1874,7 @@ CHECKS = {
     "process_history": check_process_history,
     "large_cell": check_large_cell,
     "caller_ops": check_caller_ops,
+    "solver_full_compact": check_solver_full_compact,
 }
 
 
